@@ -62,6 +62,14 @@ func c18Ops(r *RNG, st *struct {
 	case 9:
 		return bopGen{"(BInstr false)", "ADDQ bad operands", func(c *build.Context) { c.ADDQ(reg.EAX, reg.RBX) }, "", 0}
 	case 10:
+		if r.Chance(50) { // operand lists far longer than any form, of every length modulo 256
+			n := []int{256 + 3, 512 + 3, 256 + 4, 255, 256, 300, 65536 + 3}[r.Intn(7)]
+			ops := make([]operand.Op, n)
+			for i := range ops {
+				ops[i] = []operand.Op{reg.X0, reg.X1, reg.X2}[i%3]
+			}
+			return bopGen{"(BInstr false)", fmt.Sprintf("VPADDD with %d operands", n), func(c *build.Context) { c.VPADDD(ops...) }, "", 0}
+		}
 		return bopGen{"(BInstr false)", "VPADDD wrong arity", func(c *build.Context) { c.VPADDD(reg.X0) }, "", 0}
 	case 11:
 		return bopGen{"BLabel", "Label", func(c *build.Context) { st.labels++; c.Label(fmt.Sprintf("l%d", st.labels)) }, "", 0}
